@@ -6,33 +6,49 @@ from vlib import Infra, log
 RULE = ("S->C: TLC enumerates the message-shape case analysis of MsgHash_Gen (kind x init none/inline/ref x body inline/ref x "
         "source kind x destination kind x anycast x fee class x body variant: 720 cases) and the pairs of external-in cases with the "
         "relation MsgHash!CaseRelation requires between their normalised hashes (quick: the 2880 pairs that differ in exactly one "
-        "coordinate, a seeded half of them replayed; thorough: all 165600 enumerated, every 'equal'/'free' pair and a seeded sample of the 'differ' pairs replayed); "
-        "the Go harness concretises each with the library's own types, encodes, decodes without and with a caching hasher and records "
-        "Hash(false)/Hash(true) with the source cells; MsgHash_Trace re-derives shape, identity hash, the canonical external-in cell "
-        "(TEP-467) and the pair relation from the cells and requires the reports to agree. C->S: random messages of the three kinds "
-        "(addr_std/addr_var, anycast depth 1..30, extern sources, multi-cell and library-cell bodies, state-init with libraries), "
-        "random one-respect mutations of external-in messages, and every transaction / in_msg / out_msgs entry of the real blocks in "
-        "tlb/testdata plus the same records where in_msg_descr / out_msg_descr hold them (source cell captured position by position "
-        "from a separate raw decode; in_msg and out_msgs located by the specification inside the transaction's cell table; SourceBoc "
-        "parsed by Boc!Parse). distinct = distinct source cell tables judged.")
+        "coordinate, a seeded half of them replayed; thorough: all 165600 enumerated, every 'equal'/'free' pair and a seeded sample of "
+        "the 'differ' pairs replayed). Every case is emitted as the cell tree MsgHash!EncMsg lays out for it (the specification's own "
+        "layout, checked by TLC to read back through MsgHash!MsgParse); the Go harness only turns the table into cells, decodes without "
+        "and with a caching hasher and records Hash(false)/Hash(true) with the source cells; MsgHash_Trace re-derives shape, identity "
+        "hash, the canonical external-in cell (TEP-467) and the pair relation from the cells and requires the reports to agree; the "
+        "library's own encoder is exercised on every decoded message (Build events: must encode, decode again, reproduce the source cell). "
+        "C->S: random messages of the three kinds laid out by the harness's bit-level encoder (addr_std/addr_var, anycast depth 1..30, "
+        "extern sources, multi-cell and library-cell bodies), random one-respect mutations of external-in messages, and every "
+        "transaction / in_msg / out_msgs entry of the real blocks in tlb/testdata plus the same records where in_msg_descr / "
+        "out_msg_descr hold them (source cell captured position by position from a separate raw decode; in_msg and out_msgs located by "
+        "the specification inside the transaction's cell table; SourceBoc parsed by Boc!Parse). A refusal of the library to decode or "
+        "re-encode a message the specification reads is a rejected event (keys C16:decode:*, C16:build:*), never an infrastructure "
+        "error. distinct = distinct source cell tables judged.")
 
 NSHARD_GEN = 8
 
 
 def coarse(cl):
-    """input class of a message event, coarse enough to be a stable key"""
+    """input class of a message event, coarse enough to be a stable key: kind[:addr_var][:anycast][:body-is-library-cell]"""
     parts = (cl or "?").split(":")
+    out = [parts[0]]
+    if "src=var" in parts or "dest=var" in parts:
+        out.append("addr_var")
+    if "anycast" in parts:
+        out.append("anycast")
     if "body-is-library-cell" in parts:
-        return parts[0] + ":body-is-library-cell"
-    return ":".join([parts[0]] + [p for p in parts[1:] if p.startswith("anycast")])
+        out.append("body-is-library-cell")
+    return ":".join(out)
 
 
 def key_of(e, note):
     k = e.get("k")
     if k == "Msg":
         return "C16:%s:%s" % (note, coarse(e.get("class")))
+    if k == "Build":
+        return "C16:build:%s" % coarse(e.get("class"))
+    if k == "Decode":
+        return "C16:decode:%s" % coarse(e.get("class"))
     if k == "Pair":
-        return "C16:pair:%s:%s" % (note, e.get("why"))
+        var = "addr_var" if "var" in (e.get("adest"), e.get("bdest")) else "addr_std"
+        if note in ("norm-a", "norm-b"):        # one side's normalised hash is not the canonical re-encoding's
+            return "C16:pair:norm:%s" % var
+        return "C16:pair:%s:%s:%s" % (note, e.get("why"), var)
     if k == "Tx":
         return "C16:tx:%s:%s" % (note, e.get("pos"))
     if k == "MsgAt":
@@ -48,14 +64,14 @@ def slim(e, n=6000):
 def reexec_of(e):
     """the vector with which `vh replay C16` re-executes a recorded event against the current tree"""
     k = e.get("k")
-    if k == "Msg":
+    if k in ("Msg", "Build", "Decode"):
         return {"k": "boc", "class": e.get("class", ""), "boc": e["boc"]}
     if k == "Pair":
         return {"k": "pairboc", "class": e.get("why", ""), "exp": e["exp"], "boc": e["a"]["boc"], "bocb": e["b"]["boc"]}
     if k == "Tx":
-        return {"k": "blockrec", "src": e["src"], "pos": e["pos"], "id": "%s:%s" % (e["acc"], e["lt"])}
+        return {"k": "blockrec", "src": e["src"], "pos": e["pos"], "rec": "%s:%s" % (e["acc"], e["lt"])}
     if k == "MsgAt":
-        return {"k": "blockrec", "src": e["src"], "pos": e["pos"], "id": e["key"]}
+        return {"k": "blockrec", "src": e["src"], "pos": e["pos"], "rec": e["key"]}
     return None
 
 
@@ -115,27 +131,61 @@ def judge(ck, traces, par=8):
                             "by MsgHash (encoder or harness problem, not a C16 verdict): %s" % (what, rj["line"], tp, note, json.dumps(slim(e, 1500))))
             ck.report(key_of(e, note), "%s: check '%s' of MsgHash_Trace fails: the library's report differs from what the specification derives "
                       "from the source cells. Reported: %s" % (e.get("class") or e.get("why") or e.get("pos"), note,
-                                                               json.dumps({k: v for k, v in e.items() if k in ("h", "hc", "hn", "hnc", "exp", "acc", "lt", "key", "src")})),
+                                                               json.dumps({k: v for k, v in e.items() if k in ("h", "hc", "hn", "hnc", "exp", "acc", "lt", "key", "src", "enc", "dec", "err", "stage")})),
                       {"kind": "event", "note": note, "reexec": reexec_of(e), "event": slim(e, 20000)})
     return anyc, nrej
 
 
+def samples(r):
+    """field values for MsgHash_Gen (inputs only: every layout is the specification's). Trees are {"b": bits, "c": [children]}."""
+    def bits(n):
+        return "".join(r.choice("01") for _ in range(n))
+
+    def node(nb, kids=()):
+        return {"b": bits(nb), "c": list(kids)}
+
+    def byts(n):                       # an amount as whole bytes without a leading zero byte
+        b = bits(8 * n)
+        return b if n == 0 or "1" in b[:8] else "1" + b[1:]
+
+    def anyc():
+        d = r.choice([1, 30, r.randint(1, 30), r.randint(1, 30)])
+        return {"d": d, "pfx": bits(d)}
+
+    def si_bits(code, data):           # split_depth:(Maybe (## 5)) special:(Maybe TickTock) code data library (empty)
+        return (("1" + bits(5)) if r.random() < .5 else "0") + (("1" + bits(2)) if r.random() < .5 else "0") + \
+               ("1" if code else "0") + ("1" if data else "0") + "0"
+    std = [{"wc": str(r.choice([0, -1, 127, -128, r.randint(-128, 127)])), "addr": bits(256), "any": anyc()} for _ in range(3)]
+    var = [{"wc": str(r.choice([0, -1, 2 ** 31 - 1, -2 ** 31, r.randint(-2 ** 31, 2 ** 31 - 1)])),
+            "addr": bits(r.choice([1, 8, 64, 96, r.randint(1, 96)])), "any": anyc()} for _ in range(3)]
+    return {"std": std, "var": var, "ext": bits(r.randint(0, 96)), "fee": byts(r.randint(1, 15)), "fwd": byts(r.randint(1, 7)),
+            "flags": bits(3), "value": byts(r.randint(0, 7)), "ihr": byts(r.randint(0, 5)), "lt": bits(64), "at": bits(32),
+            "si_inline": {"b": si_bits(True, True), "c": [node(r.randint(0, 300)), node(r.randint(0, 300), [node(9)])]},
+            "si_ref": {"b": si_bits(True, False), "c": [node(r.randint(0, 1023), [node(3), node(1023)])]},
+            "bodies": [node(0), node(r.randint(1, 160)),
+                       node(r.randint(0, 160), [node(r.randint(0, 1023), [node(77)]), node(500)])]}
+
+
 def gen_vectors(ck):
     base = open(os.path.join(vlib.SPEC, "gen/MsgHash_Gen.cfg")).read()
+    sp = os.path.join(ck.work, "samples.ndjson")
+    vlib.write_ndjson(sp, [samples(ck.rng)])
 
     def gen(part):
         p = os.path.join(ck.work, "MsgHash_Gen_%s.cfg" % part)
         mode = "all" if ck.thorough else "near"
         open(p, "w").write(base.replace('Part = "case"', 'Part = "%s"' % part).replace('Mode = "near"', 'Mode = "%s"' % mode))
-        res = ck.tlc_or_infra("MsgHash_Gen", os.path.relpath(p, vlib.SPEC), workers=4 if part == "pair" else 1, timeout=1200,
-                              name="gen_" + part, heap_gb=4)
+        res = ck.tlc_or_infra("MsgHash_Gen", os.path.relpath(p, vlib.SPEC), files={"samples.ndjson": sp}, workers=4 if part == "pair" else 2,
+                              timeout=1200, name="gen_" + part, heap_gb=4)
         return res.vecs()
-    cases, pairs = vlib.parallel(gen, ["case", "pair"], n=2)
+    cases, rest = vlib.parallel(gen, ["case", "pair"], n=2)
+    msgs = [v for v in rest if v["k"] == "msg"]
+    pairs = [v for v in rest if v["k"] == "pair"]
     if len(cases) != 720:
         raise Infra("MsgHash_Gen produced %d cases, expected 720" % len(cases))
     want = 165600 if ck.thorough else 2880
-    if len(pairs) != want:
-        raise Infra("MsgHash_Gen produced %d pairs, expected %d" % (len(pairs), want))
+    if len(pairs) != want or sorted(m["id"] for m in msgs) != list(range(1, 577)):
+        raise Infra("MsgHash_Gen produced %d pairs over %d messages, expected %d over 576" % (len(pairs), len(msgs), want))
     rel = collections.Counter(p["exp"] for p in pairs)
     if set(rel) != {"equal", "differ", "free"}:
         raise Infra("pair relation classes incomplete: %s" % dict(rel))
@@ -143,27 +193,29 @@ def gen_vectors(ck):
     if len(shapes) != 240:
         raise Infra("case analysis incomplete: %d shapes" % len(shapes))
     ck.extra["gen_cases"] = len(cases)
+    ck.extra["gen_extin_messages"] = len(msgs)
     ck.extra["gen_pairs_enumerated"] = dict(rel)
     if ck.thorough:
         diff = [p for p in pairs if p["exp"] == "differ"]
-        rest = [p for p in pairs if p["exp"] != "differ"]
+        keep = [p for p in pairs if p["exp"] != "differ"]
         ck.rng.shuffle(diff)
-        pairs = rest + diff[:26000]
+        pairs = keep + diff[:26000]
     else:
         # quick tier: TLC enumerates (and MsgHash!CaseRelation classifies) every one-coordinate pair; a seeded half is replayed
         ck.rng.shuffle(pairs)
         pairs = pairs[:1440]
     vecs = cases + pairs
-    for i, v in enumerate(vecs):
+    for i, v in enumerate(msgs + vecs):
         v["vec"] = i
     ck.extra["gen_pairs_replayed"] = dict(collections.Counter(p["exp"] for p in pairs))
-    return vecs
+    return msgs, vecs
 
 
-def replay_vectors(ck, vecs, name, shards):
+def replay_vectors(ck, msgs, vecs, name, shards):
+    """every shard file defines all external-in messages (pairs refer to them by index); shard 0 also records them as events"""
     def one(i):
         vp, rp = os.path.join(ck.work, "%s_%02d.vec.json" % (name, i)), os.path.join(ck.work, "%s_%02d.ndjson" % (name, i))
-        part = vecs[i::shards]
+        part = [dict(m, emit=(i == 0)) for m in msgs] + vecs[i::shards]
         vlib.write_ndjson(vp, part)
         ck.run_vh(["replay", "C16", "-in", vp, "-out", rp, "-seed", ck.seed])
         out = vlib.read_ndjson(rp)
@@ -188,6 +240,8 @@ def stats(traces):
                 if k == "Tx" and e.get("full"):
                     c["tx_out_msgs:" + e["src"]] += len(e["om"])
                     c["tx_in_msgs:" + e["src"]] += 1 if e["im"]["p"] else 0
+            elif k in ("Build", "Decode"):
+                c[k] += 1
             elif k == "Pair":
                 c["Pair:" + e["exp"]] += 1
                 c["Pair-why:" + e.get("why", "?")] += 1
@@ -215,8 +269,8 @@ def run(ck):
     njvm = 8 if ck.thorough else 4
 
     def s2c():
-        vecs = gen_vectors(ck)
-        gtraces = replay_vectors(ck, vecs, "gen", NSHARD_GEN if not ck.thorough else vlib.NCPU)
+        msgs, vecs = gen_vectors(ck)
+        gtraces = replay_vectors(ck, msgs, vecs, "gen", NSHARD_GEN if not ck.thorough else vlib.NCPU)
         return vecs, gtraces, merge(ck, gtraces, njvm, "jgen")
 
     def c2s():
@@ -232,7 +286,7 @@ def run(ck):
     anyc, _ = judge(ck, jg + jd, par=vlib.NCPU)
     log("traces judged at %.1fs" % (time.time() - ck.t0))
     gs, gdistinct, _ = stats(gtraces)
-    ck.sample({"direction": "S->C", "case": vecs[7]["c"], "pair": next(v for v in vecs if v["k"] == "pair" and v["exp"] == "free")})
+    ck.sample({"direction": "S->C", "case": vecs[7]["c"], "cells": vecs[7]["cells"][:2], "pair": next(v for v in vecs if v["k"] == "pair" and v["exp"] == "free")})
     ds, ddistinct, ncells = stats(traces)
     ck.extra["recorded"] = {k: v for k, v in sorted(ds.items())}
     ck.extra["cells_judged"] = ncells
@@ -268,19 +322,23 @@ def run(ck):
         c8["om"][-1]["h"] = flip(c8["om"][-1]["h"])
     else:
         c8["nout"] = 1
+    bld = next(e for e in evs if e["k"] == "Build" and "library" not in e["class"])
+    c9 = copy.deepcopy(bld); c9["dec"] = "e"
+    c10 = copy.deepcopy(bld); c10["libcells"][0]["b"] = c10["libcells"][0]["b"][:-1] + ("0" if c10["libcells"][0]["b"][-1] == "1" else "1")
     p = os.path.join(ck.work, "canary.ndjson")
-    vlib.write_ndjson(p, [c1, c2, c3, c4, c5, c6, c7, c8, msg, pair_d, pair_e, tx, {"k": "End"}])
+    vlib.write_ndjson(p, [c1, c2, c3, c4, c5, c6, c7, c8, msg, pair_d, pair_e, tx, c9, c10, bld, {"k": "End"}])
     st = (ck.states, ck.transitions, ck.traces_ok, ck.evaluations)
     res, rej = ck.validate_events("MsgHash_Trace", "trace/MsgHash_Trace.cfg", p, name="canary")
     ck.states, ck.transitions, ck.traces_ok, ck.evaluations = st
     got = [r["line"] for r in rej]
     cnotes = {t[1]: t[2] for t in res.tuples("NOTE") if not str(t[2]).startswith("anycast-")}
-    intact = not (set(got) & {9, 10, 11, 12})       # the unmodified events must be accepted, or the rejections mean nothing
+    intact = not (set(got) & {9, 10, 11, 12, 15})       # the unmodified events must be accepted, or the rejections mean nothing
     ck.canary("one digit of a reported Hash(false) / cached Hash(true) changed -> rejected (original accepted)", 1 in got and 2 in got and intact)
     ck.canary("pair with different destinations declared 'equal' -> rejected (with and without forged equal hashes)",
               3 in got and 4 in got and cnotes.get(3) == "declared" and intact)
     ck.canary("'equal' pair with one normalised hash changed -> rejected", 5 in got and intact)
     ck.canary("transaction: cached hash digit / SourceBoc digit / out-message hash digit changed -> rejected", 6 in got and 7 in got and 8 in got and intact)
+    ck.canary("library's own encoding reported undecodable / differing in one bit from the source cell -> rejected", 13 in got and 14 in got and intact)
     return ck.finish(rule=RULE, distinct=len(gdistinct | ddistinct))
 
 
